@@ -221,10 +221,13 @@ func registerOS(e *Engine) {
 		if s.Const && !strings.Contains(s.S, "$") {
 			return c.Return(s)
 		}
-		// r = s when s has no '$'; otherwise unconstrained (reads ENV only)
+		// r = s when s has no '$'; otherwise unconstrained (reads ENV only). The second
+		// case depends on the environment's content, which native replay cannot set up:
+		// such paths are not used as translator-validation samples.
 		r := FreshVar("expandenv", SString, 0)
-		c.St.Assume(Or(StrContains(s, StrC("$")), Eq(r, s)))
-		return c.Return(r)
+		has := StrContains(s, StrC("$"))
+		c.St.Assume(intCmp("<=", StrLenInt(r), IntC(12))) // stated bound on expanded values
+		return c.Outcomes(c.sol2(), []Outcome{{Cond: Not(has), Ret: s}, {Cond: has, Ret: r, Eff: func(st *State) { st.NoReplay = true }}})
 	}
 	e.Intr["os.Environ"] = func(c *Call) []*State { return c.Return(Slice{}) }
 	e.Intr["os.Getpid"] = func(c *Call) []*State { return c.Return(BVC(4242, 64)) }
